@@ -20,7 +20,7 @@ func verifGate(point string) {
 	}
 }
 
-func (this *Server) VerifZeroGroup() *raft.RaftGroup             { return this.zeroGroup }
+func (this *Server) VerifZeroGroup() *raft.RaftGroup              { return this.zeroGroup }
 func (this *Server) VerifDatasetManager() *storage.DatasetManager { return this.datasetManager }
 func (this *Server) VerifNodesManager() *raft.NodesManager        { return this.nodesManager }
 func (this *Server) VerifNodeId() uint64                          { return this.config.RaftNodeId }
